@@ -8,7 +8,7 @@ function with these properties (IEEE-754 binary64: u = 2⁻⁵³, binary32: u = 
 accuracy e of the mathematical library is a parameter).  Not covered: overflow, subnormal underflow, NaN.
 Helper lemmas: LdpcV/Lemmas/RoundLemmas.lean.   b = 1/(1−u),  γ_k = k·u/(1−k·u).
 -/
-import LdpcV.Lemmas.RoundAmin
+import LdpcV.Lemmas.RoundTanh
 namespace LdpcV.C04Round
 open LdpcV LdpcV.ArithF LdpcV.Modulation LdpcV.Round
 
@@ -57,6 +57,28 @@ theorem amin_rule_rounded (M : FpModel) (B : ℝ) (msgs : List (Nat × ℝ)) (hB
         |(out.getD i (0, 0)).2 - (outR.getD i (0, 0)).2| ≤ ((msgs.length - 1 : ℕ) : ℝ) * etaF M (B + 1) :=
   amin_rule M B msgs hB hd hsmall
 
+/-- C04: the floating-point tanh rule (`impl_tanhf!`: tanh of the clamped half-messages, rounded left-to-right product of the
+others, `2·atanh`) in the TANH DOMAIN — the domain in which "agrees with 2·atanh(Π tanh(x/2))" is meaningful uniformly, since
+2·atanh is ill-conditioned near ±1.  For every clamp C ≥ 0 and every degree: exactly one message per neighbour, in order, and
+  |tanh(out/2) − Π_{j≠i} tanh(clamp(x_j/2))| ≤ 4ζ + pErr(d−1),
+where ζ = (1+e)b² − 1 (the relative perturbation of the argument of the last tanh; a factor G perturbs tanh by at most 4|G−1|
+however large the argument, `tanh_scale`), ε_t = e + (b²−1)·C (one rounded factor, `tF_err`; tanh is 1-Lipschitz, `tanh_lip`) and
+pErr 0 = u, pErr (k+1) = pErr k·(1+e)(1+u) + ε_t + u(1+e) (the rounded product).  Hypothesis `hlt`: the ROUNDED product of the
+other factors stays below 1 in magnitude — in the abstract model a product of values < 1 may round up to 1 (IEEE rounding is
+monotone, the standard model is not), and `atanh 1` is not a number; the hypothesis is decidable on every concrete input -/
+theorem tanh_rule_rounded (M : FpModel) (C : ℝ) (hC : 0 ≤ C) (hz : zeta M ≤ 1 / 2) (msgs : List (Nat × ℝ))
+    (hlt : ∀ ex ∈ msgs, |prod (Sc.rounded M) ((msgs.filter (fun q => q.1 != ex.1)).map (fun q => tF M C q.2))| < 1) :
+    (checkTanh (Sc.rounded M) C msgs).map Prod.fst = msgs.map Prod.fst ∧
+    ∀ o ∈ checkTanh (Sc.rounded M) C msgs,
+      |Real.tanh (o.2 / 2) - prod Sc.real ((msgs.filter (fun q => q.1 != o.1)).map (fun q => tR C q.2))| ≤
+        4 * zeta M + pErr M (epsT M C) ((msgs.filter (fun q => q.1 != o.1)).length) :=
+  tanh_rule_err M C hC hz msgs hlt
+
+/-- the analytic facts behind it: tanh is 1-Lipschitz, and scaling its argument by G (|G−1| ≤ 1/2) moves it by at most 4|G−1| -/
+theorem tanh_facts (x y a G : ℝ) (hG : |G - 1| ≤ 1 / 2) :
+    |Real.tanh x - Real.tanh y| ≤ |x - y| ∧ |Real.tanh (a * G) - Real.tanh a| ≤ 4 * |G - 1| :=
+  ⟨tanh_lip x y, tanh_scale a G hG⟩
+
 /-- the per-step bounds in closed form, for u ≤ 1/64: η(m) ≤ 5(u+e)(m+1) (approximate step), η_F(m) ≤ 32(u+e)(m+1) (exact-form step) -/
 theorem step_bounds_linear (M : FpModel) (hu : M.u ≤ 1 / 64) (m : ℝ) (hm : 0 ≤ m) :
     eta M m ≤ 5 * (M.u + M.e) * (m + 1) ∧ etaF M m ≤ 32 * (M.u + M.e) * (m + 1) :=
@@ -66,6 +88,15 @@ theorem step_bounds_linear (M : FpModel) (hu : M.u ≤ 1 / 64) (m : ℝ) (hm : 0
 in it b = 1, η = 0 and the rounded rule IS the real rule -/
 example : eta FpModel.exact 5 = 0 := by
   unfold eta FpModel.exact b; simp
+
+/-- … in exact arithmetic ζ = 0, ε_t = 0 and pErr k = 0: the rounded tanh rule is the real one -/
+example (C : ℝ) (k : ℕ) : zeta FpModel.exact = 0 ∧ epsT FpModel.exact C = 0 ∧ pErr FpModel.exact 0 k = 0 := by
+  have hu : FpModel.exact.u = 0 := rfl
+  have he : FpModel.exact.e = 0 := rfl
+  refine ⟨by unfold zeta b FpModel.exact; simp, by unfold epsT b FpModel.exact; simp, ?_⟩
+  induction k with
+  | zero => simp only [pErr]; exact hu
+  | succ k ih => simp only [pErr, ih, hu, he]; norm_num
 
 /-- … and the smallness hypothesis of `amin_rule_rounded` holds there for every degree -/
 example (d : ℕ) (B : ℝ) : (d : ℝ) * etaF FpModel.exact (B + 1) ≤ 1 := by
